@@ -57,8 +57,23 @@ pub struct FAtomic;
 impl Flavor for FAtomic {
     type B = AtomicBitmap;
     const NAME: &'static str = "atomic";
-    fn make(len: usize, page: usize, _r: &mut Rng) -> AtomicBitmap {
-        AtomicBitmap::new(len, NonZeroUsize::new(page).unwrap())
+    fn make(len: usize, page: usize, r: &mut Rng) -> AtomicBitmap {
+        // one time in three the bitmap starts smaller and is ENLARGED to the region's size before
+        // it is handed over (a clone of it another time in six)
+        match r.below(6) {
+            0 | 1 if len >= 2 => {
+                let first = match r.below(3) {
+                    0 => 0,
+                    1 => len / 2,
+                    _ => (len / page.max(1)).saturating_sub(1) * page,
+                };
+                let mut b = AtomicBitmap::new(first, NonZeroUsize::new(page).unwrap());
+                b.enlarge(len - first);
+                if b.byte_size() == len { b } else { AtomicBitmap::new(len, NonZeroUsize::new(page).unwrap()) }
+            }
+            2 => AtomicBitmap::new(len, NonZeroUsize::new(page).unwrap()).clone(),
+            _ => AtomicBitmap::new(len, NonZeroUsize::new(page).unwrap()),
+        }
     }
     fn inner(b: &AtomicBitmap) -> Option<&AtomicBitmap> {
         Some(b)
